@@ -21,6 +21,11 @@ def load_signatures():
         return None
 
 
+def _norm(sig):
+    # the `sync` build is analysed with Arc spelled Rc (facts.py)
+    return (sig or "").replace("std::sync::Arc", "std::rc::Rc")
+
+
 def _parent(d):
     return d.rsplit("::", 1)[0] if "::" in d else ""
 
@@ -56,7 +61,7 @@ def undo_renames(j, known):
         return {}
     cand = {}
     for m in missing:
-        cand[m] = [n for n in new if _parent(n) == _parent(m) and present[n][0].get("sig") == known[m]["sig"]]
+        cand[m] = [n for n in new if _parent(n) == _parent(m) and _norm(present[n][0].get("sig")) == _norm(known[m]["sig"])]
     renames = {}
     for m, ns in cand.items():
         if len(ns) != 1:
